@@ -15,7 +15,7 @@ theorem inv_advance_pre (c : Cfg) (ar aq : Nat) (s : S) (h : Inv c ar aq s) (p :
   by_cases hcl : s.cleaned = true
   · -- a cleaned state: only the phase-free clauses matter
     have hb := h.base
-    have := tail_clean c ar aq s hb hcl p s.pass s.notify
+    have := tail_clean c ar aq s hb hcl h.k33 p s.pass s.notify
     have hr : s.running = false := by have := h.k0; simp only [K0, hcl] at this; simpa using this
     have e : ({ s with running := false, phase := p, pass := s.pass, notify := s.notify } : S) = { s with phase := p } := by
       rw [← hr]
@@ -24,8 +24,8 @@ theorem inv_advance_pre (c : Cfg) (ar aq : Nat) (s : S) (h : Inv c ar aq s) (p :
     have h17 := h.k17 hcl hp
     have hq2 : fwdPhase p = false ∧ upPhase p = false ∧ p ≠ .End ∧ p ≠ .Retry := by
       cases p <;> simp [prePhase, fwdPhase, upPhase] at hq ⊢
-    obtain ⟨k0, k1, k2, k3, k4, k5, k6, k7, k8, k9, k10, k11, k12, k13, k14, k15, k16, k17, k18, k19, k20, k21, k22, k23, k24, k25, k26, k27, k28, k29, k30, k31, k32⟩ := h
-    refine ⟨k0, k1, k2, k3, k4, k5, k6, k7, ?_, k9, k10, k11, k12, k13, k14, ?_, ?_, ?_, ?_, ?_, k20, k21, k22, ?_, k24, k25, ?_, ?_, ?_, ?_, ?_, k31, ?_⟩
+    obtain ⟨k0, k1, k2, k3, k4, k5, k6, k7, k8, k9, k10, k11, k12, k13, k14, k15, k16, k17, k18, k19, k20, k21, k22, k23, k24, k25, k26, k27, k28, k29, k30, k31, k32, k33⟩ := h
+    refine ⟨k0, k1, k2, k3, k4, k5, k6, k7, ?_, k9, k10, k11, k12, k13, k14, ?_, ?_, ?_, ?_, ?_, k20, k21, k22, ?_, k24, k25, ?_, ?_, ?_, ?_, ?_, k31, ?_, (fun hh => absurd hh (by simp [hcl]))⟩
     · intro _
       have hp0 : s.pass = 0 := h17.2.2.2.2.2.2.2.2.2
       exact ⟨by show s.pass ≤ 1; omega, Or.inl hp0⟩
@@ -138,8 +138,8 @@ theorem inv_work_chooseHost (c : Cfg) (ar aq : Nat) (s : S) (h : Inv c ar aq s) 
       · intro _ hdr
         subst hs1
         have hdr : s.downReset = false := hdr
-        obtain ⟨k0, k1, k2, k3, k4, k5, k6, k7, k8, k9, k10, k11, k12, k13, k14, k15, k16, k17, k18, k19, k20, k21, k22, k23, k24, k25, k26, k27, k28, k29, k30, k31, k32⟩ := h
-        refine ⟨k0, k1, k2, k3, k4, k5, k6, k7, ?_, hb1.k9, k10, k11, k12, ?_, hb1.k14, ?_, ?_, ?_, ?_, ?_, k20, k21, k22, ?_, ?_, ?_, ?_, ?_, ?_, ?_, ?_, ?_, ?_⟩
+        obtain ⟨k0, k1, k2, k3, k4, k5, k6, k7, k8, k9, k10, k11, k12, k13, k14, k15, k16, k17, k18, k19, k20, k21, k22, k23, k24, k25, k26, k27, k28, k29, k30, k31, k32, k33⟩ := h
+        refine ⟨k0, k1, k2, k3, k4, k5, k6, k7, ?_, hb1.k9, k10, k11, k12, ?_, hb1.k14, ?_, ?_, ?_, ?_, ?_, k20, k21, k22, ?_, ?_, ?_, ?_, ?_, ?_, ?_, ?_, ?_, ?_, (fun hh => absurd hh (by simp [hcl]))⟩
         · intro _; exact ⟨by show s.pass ≤ 1; omega, Or.inl hps⟩
         · intro hh; simp [hcl] at hh
         · intro _ hh; simp [hp, Phase.next, upPhase] at hh
